@@ -17,9 +17,11 @@ META["bounds"] = c01.META["bounds"] + [
 ]
 META["outside"] = c01.META["outside"] + ["escaping of < & \" ]]> and control characters (XMLGenerator / lxml)", "compound fields, wildcards, unions, QName values, formats in oracle 2 (monitor only)"]
 
-REFERENCE = ["basic_int", "basic_str", "textattr", "textstr", "reqtext", "lists_int", "lists_str", "tokenlists", "frozen", "nillable", "nilparent", "parenta",
-             "parentb", "nsattr", "nsattrparent", "derivedb", "family", "unqualified", "sequential", "wrapped", "enums", "defaults", "holder", "derived_root"]
 
+# every builder except the ones whose field kinds the reference reading does not cover (generic wildcards / attribute maps, anyType values,
+# formatted temporal values, unions of models); value kinds it does not know raise NotImplementedError inside covered builders (monitor only then)
+NOT_REFERENCE = ["wild_text", "wild_attrs", "anytyped", "temporal", "unionmodels"]
+REFERENCE = [n for n in SPECS if n not in NOT_REFERENCE]
 SLEN = PART.get("slen", 2)
 IMAX = PART.get("imax", 100)
 _SPEC = SPECS.get(PART.get("spec", "basic_int"))
